@@ -1,6 +1,7 @@
 import Hgxv.Model.Wire
 import Hgxv.Model.C13
 import Hgxv.Model.C13Ext
+import Hgxv.Model.C13Obj
 /-! Line protocol for C13 (stateless).
   `cm <e|s> <detailed 0|1> <size|-1> <nSteps> <edges natss> <draws natss>`
         draws: a 2-element inner list `i,j` is `Draw.idx i j`, a 1-element list `0`/`1` is `Draw.coin`
@@ -11,6 +12,11 @@ import Hgxv.Model.C13Ext
         -> `ok <edges natss> <nodes nats> <randint calls> <rand calls> <draws left>` | `raise` | `diverge` | `baddraw`
   `dcmx <sources natss> <targets natss> <draws nats>`
         -> `ok <sources natss> <targets natss> <nodes nats> <draws of the source loop> <of the target loop> <left>` | ...
+  `cmo <e|s|o> <detailed 0|1> <order int|n> <size int|n> <nSteps int> <weighted 0|1> <edges natss> <weights nats>
+       <edge metadata codes nats> <nodes nats> <node metadata codes nats> <hypergraph metadata code> <draws natss>`
+        (Model/C13Obj.lean: integer arguments, unknown label `o`, the object with weights and metadata)
+        -> `ok none <draws left>` | `ok obj <weighted> <edges natss> <weights nats> <edge metadata nats> <nodes nats>
+           <node metadata nats> <hypergraph metadata> <draws left>` | `raise` | `diverge` | `baddraw`
   `degk <edges natss> <n> <k>` -> number;  `deg <edges natss> <n>` -> number -/
 open Wire C13
 
@@ -29,6 +35,31 @@ def sizeArg (s : String) : Option Nat := match s.toInt? with
 
 def label? : String → Option Label
   | "e" => some .edge | "s" => some .stub | _ => none
+
+def optInt? (s : String) : Option (Option Int) :=
+  if s == "n" then some none else (s.toInt?).map some
+
+def labelX? : String → Option LabelX
+  | "e" => some (.known .edge) | "s" => some (.known .stub) | "o" => some .other | _ => none
+
+def showObj (o : Obj) : String :=
+  showBool o.weighted ++ " " ++ showNatss (o.items.map (·.1)) ++ " " ++ showNats (o.items.map (·.2.1)) ++ " "
+    ++ showNats (o.items.map (·.2.2)) ++ " " ++ showNats (o.nodeMeta.map (·.1)) ++ " "
+    ++ showNats (o.nodeMeta.map (·.2)) ++ " " ++ toString o.hmeta
+
+def stepObj : List String → Option String
+  | [lab, det, order, size, n, wtd, edges, ws, ems, nodes, nms, hm, draws] =>
+    match labelX? lab, nat? det, optInt? order, optInt? size, int? n, nat? wtd, natss? edges, nats? ws, nats? ems,
+          nats? nodes, nats? nms, nat? hm, (natss? draws).bind (·.mapM draw?) with
+    | some l, some d, some o, some sz, some n, some wtd, some es, some ws, some ems, some nodes, some nms, some hm, some ds =>
+      if es.length != ws.length || es.length != ems.length || nodes.length != nms.length then none else
+      let h : Obj := { weighted := wtd != 0, items := es.zip (ws.zip ems), nodeMeta := nodes.zip nms, hmeta := hm }
+      match cmObj l (d != 0) o sz n h ds with
+      | .ok (none, left) => some ("ok none " ++ toString left.length)
+      | .ok (some r, left) => some ("ok obj " ++ showObj r ++ " " ++ toString left.length)
+      | .error e => some (showErr e)
+    | _, _, _, _, _, _, _, _, _, _, _, _, _ => none
+  | _ => none
 
 def step (_ : Unit) : List String → Unit × String
   | ["cm", lab, det, size, n, edges, draws] =>
@@ -64,6 +95,7 @@ def step (_ : Unit) : List String → Unit × String
                         ++ toString r.left)
       | .error e => ((), showErr e)
     | _, _, _ => ((), "bad-op")
+  | "cmo" :: rest => ((), (stepObj rest).getD "bad-op")
   | ["degk", edges, n, k] =>
     match natss? edges, nat? n, nat? k with
     | some es, some n, some k => ((), toString (degK es n k))
